@@ -18,6 +18,7 @@
 #include <AIToolbox/POMDP/Algorithms/GapMin.hpp>
 #include <AIToolbox/POMDP/Environments/TigerProblem.hpp>
 #include <AIToolbox/Verif/Hooks.hpp>
+#include "c03_gmodel.hpp"
 #include <sys/wait.h>
 #include <unistd.h>
 #include <signal.h>
@@ -26,18 +27,26 @@ using namespace verif;
 namespace P = AIToolbox::POMDP;
 namespace M = AIToolbox::MDP;
 using PModel = P::Model<M::Model>;
+using SModel = P::SparseModel<M::SparseModel>;
+
+// A model that offers only the element-wise interface (IsModel but not IsModelEigen): the solvers take their `else` branches
+// (computeImmediateRewards, the hand-written loops of Projecter / makeSOSA / updateBelief* / bestConservativeAction ...).
+static_assert(P::IsModelEigen<SModel> && P::IsModelEigen<PModel>);
 
 static uint64_t g_seed = 0;
 static const long NSOLV = 7;        // blind, fib+qmdp, pbvi, perseus, sarsop, gapmin, kernels(bestConservative/bestPromising)
-static const long NFIXED = 12;      // hand-written witness / regression POMDPs come first (10, 11: GapMin regression instances)
+static const long NFIXED = 22;      // hand-written witness / regression POMDPs come first (10, 11: GapMin regression instances)
 
 struct Inst {
     PomdpTables t;
     AIToolbox::Vector b0;
     std::string shape;
     unsigned gapDigits = 0;     // 0 = drawn per case
+    int kind = 0;               // 0 dense Eigen model, 1 sparse Eigen model, 2 element-wise (non-Eigen) model
+    unsigned impossible = 0;    // number of (action, observation) pairs that are impossible for every successor state
 };
 static Inst genInst(uint64_t seed, long pn, bool th);
+static void makeImpossible(Inst & I, Rng & r, bool all);
 
 static PomdpTables tablesOf(const PModel & m) {
     PomdpTables t; t.S = m.getS(); t.A = m.getA(); t.O = m.getO(); t.discount = m.getDiscount();
@@ -60,6 +69,26 @@ static PomdpTables oneState(std::vector<double> r, double g) {
     return t;
 }
 
+// Make some (action, observation) pairs impossible for every successor state: the column `o` of `Ob[a]` becomes zero and its mass moves to
+// an observation that stays possible (rows remain dyadic distributions). `all` = every action loses at least one observation.
+static void makeImpossible(Inst & I, Rng & r, bool all) {
+    auto & t = I.t;
+    if (t.O < 2) return;
+    for (size_t a = 0; a < t.A; ++a) {
+        if (!all && r.coin()) continue;
+        const size_t keep = r.below(t.O);
+        for (size_t o = 0; o < t.O; ++o) {
+            if (o == keep || (t.O > 2 && r.coin())) continue;
+            for (size_t s1 = 0; s1 < t.S; ++s1) { t.Ob[a](s1, keep) += t.Ob[a](s1, o); t.Ob[a](s1, o) = 0.0; }
+        }
+    }
+}
+static unsigned countImpossible(const PomdpTables & t) {
+    unsigned n = 0;
+    for (size_t a = 0; a < t.A; ++a) for (size_t o = 0; o < t.O; ++o) { bool any = false; for (size_t s1 = 0; s1 < t.S; ++s1) any |= t.Ob[a](s1, o) != 0.0; n += !any; }
+    return n;
+}
+
 static Inst fixedInst(long k) {
     Inst I;
     switch (k) {
@@ -73,6 +102,77 @@ static Inst fixedInst(long k) {
     // supports: with LPInterpolation's weights misplaced (C12 defect 1, repaired in cc0ddd0) it returns ub below V* / below lb here
     case 10: { I = genInst(1, 183, true); I.shape = "fixed_gapmin_face"; I.gapDigits = 3; break; }
     case 11: { I = genInst(1, 90, true); I.shape = "fixed_gapmin_face"; I.gapDigits = 4; break; }
+    // (action, observation) pairs that are impossible for EVERY successor state, with rewards of one sign: Projecter takes its
+    // `!possibleObservations_[a][o]` branch (the vector of that pair is the bare reward share R/|O|), bestPromisingAction and GapMin skip the
+    // pair; an error in the reward share there moves every backed-up vector by a multiple of R
+    case 12: case 13: case 14: case 15: {
+        Rng r(0xC03C03ull + (uint64_t)k);
+        const size_t S = k == 15 ? 1 : k == 13 ? 3 : 2, O = k == 13 ? 2 : 3;
+        I.t = randomPomdp(r, S, 2, O);
+        I.t.discount = k == 13 ? 0.5 : 0.75;
+        makeImpossible(I, r, true);
+        for (size_t s = 0; s < S; ++s) for (size_t a = 0; a < 2; ++a) I.t.R(s, a) = (k == 14 ? -1.0 : 1.0) * (std::fabs(I.t.R(s, a)) + 0.25);
+        I.b0 = AIToolbox::Vector::Zero(S);
+        if (S == 1) I.b0[0] = 1.0; else if (k == 13) { I.b0[0] = 0.5; I.b0[2] = 0.5; } else { I.b0[0] = 0.25; I.b0[1] = 0.75; }
+        I.shape = "fixed_impossible_obs"; I.kind = (int)(k % 3);
+        break;
+    }
+    // transition probabilities below the library's `equalToleranceSmall` (2^-21 < 1e-6) towards a valuable state, positive rewards: the mass
+    // GapMin::makeNewPomdp / LPInterpolation / bestPromisingAction drop is worth something (Props/C03Trunc.lean bounds what it can cost)
+    case 16: case 17: {
+        I = genInst(1, k == 16 ? 183 : 90, true);
+        for (size_t s = 0; s < I.t.S; ++s) for (size_t a = 0; a < I.t.A; ++a) I.t.R(s, a) += 9.0;      // same policy structure, all values positive
+        const double tiny = std::ldexp(1.0, -21);
+        for (size_t a = 0; a < I.t.A; ++a) for (size_t s = 0; s < I.t.S; ++s) {
+            size_t big = 0, zero = I.t.S; for (size_t s1 = 0; s1 < I.t.S; ++s1) { if (I.t.T[a](s, s1) > I.t.T[a](s, big)) big = s1; if (I.t.T[a](s, s1) == 0.0 && zero == I.t.S) zero = s1; }
+            if (zero < I.t.S) { I.t.T[a](s, zero) += tiny; I.t.T[a](s, big) -= tiny; }
+        }
+        I.shape = "fixed_tiny_probability"; I.gapDigits = k == 16 ? 4 : 5;
+        break;
+    }
+    // Cut-off witness. States 0,1,2: a block in which all actions coincide (FIB, blind strategies and V* agree at those corners): 0 stays with
+    // probability 1/2 and reaches the valuable absorbing state 1 with probability 2^-21 < equalToleranceSmall, else the poor absorbing state 2.
+    // States 3,4: a tiger-like block that keeps GapMin refining. All beliefs on the way are interior, so GapMin stores them and rebuilds its
+    // belief-augmented POMDP; makeNewPomdp drops the weight 2^-22 on state 1 in the row of corner 0, and every FIB pass lowers ubQ(0,.) further
+    // below V*(e0) (by gamma * 2^-21 * V(1) = 3.8e-6 in the first pass).
+    case 18: {
+        PomdpTables & t = I.t; t.S = 5; t.A = 3; t.O = 2; t.discount = 0.5;
+        t.T.assign(3, AIToolbox::Matrix2D::Zero(5, 5)); t.Ob.assign(3, AIToolbox::Matrix2D::Zero(5, 2)); t.R = AIToolbox::Matrix2D::Zero(5, 3);
+        const double p = std::ldexp(1.0, -21);
+        for (size_t a = 0; a < 3; ++a) {
+            t.T[a](0, 0) = 0.5; t.T[a](0, 1) = p; t.T[a](0, 2) = 0.5 - p; t.T[a](1, 1) = 1.0; t.T[a](2, 2) = 1.0;
+            for (size_t s = 0; s < 3; ++s) { t.Ob[a](s, 0) = 0.5; t.Ob[a](s, 1) = 0.5; }
+            t.R(0, a) = 1.0; t.R(1, a) = 8.0; t.R(2, a) = 1.0;
+        }
+        t.T[0](3, 3) = 1.0; t.T[0](4, 4) = 1.0;                                   // listen
+        t.Ob[0](3, 0) = 0.875; t.Ob[0](3, 1) = 0.125; t.Ob[0](4, 0) = 0.125; t.Ob[0](4, 1) = 0.875;
+        for (size_t a = 1; a < 3; ++a) for (size_t s = 3; s < 5; ++s) { t.T[a](s, 3) = 0.5; t.T[a](s, 4) = 0.5; t.Ob[a](s, 0) = 0.5; t.Ob[a](s, 1) = 0.5; }
+        t.R(3, 0) = 1.0; t.R(4, 0) = 1.0; t.R(3, 1) = 0.0; t.R(4, 1) = 8.0; t.R(3, 2) = 8.0; t.R(4, 2) = 0.0;
+        I.b0 = vec({0.25, 0.125, 0.125, 0.25, 0.25}); I.shape = "fixed_cutoff_witness"; I.gapDigits = 7;
+        break;
+    }
+    // Lower-side cut-off witness: under action 0 the observation 1 has probability 2^-21 <= equalToleranceSmall in EVERY successor state, so
+    // Projecter::computePossibleObservations flags the pair impossible and its projection is the bare reward share: the continuation term
+    // gamma * T (O . v) of that observation is dropped. With negative values the dropped term is negative, so every backed-up vector of
+    // action 0 is too HIGH (by gamma * 2^-21 * |v| = 1.9e-6 from the second timestep on).
+    case 19: {
+        PomdpTables & t = I.t; t.S = 2; t.A = 2; t.O = 2; t.discount = 0.5;
+        t.T.assign(2, AIToolbox::Matrix2D::Constant(2, 2, 0.5)); t.Ob.assign(2, AIToolbox::Matrix2D::Zero(2, 2)); t.R = AIToolbox::Matrix2D::Zero(2, 2);
+        const double p = std::ldexp(1.0, -21);
+        for (size_t s = 0; s < 2; ++s) { t.Ob[0](s, 0) = 1.0 - p; t.Ob[0](s, 1) = p; t.R(s, 0) = -8.0; t.R(s, 1) = -9.0; }
+        t.Ob[1](0, 0) = 0.875; t.Ob[1](0, 1) = 0.125; t.Ob[1](1, 0) = 0.125; t.Ob[1](1, 1) = 0.875;
+        I.b0 = vec({0.5, 0.5}); I.shape = "fixed_cutoff_witness_lower"; I.gapDigits = 4;
+        break;
+    }
+    // Sparse Eigen model whose reward matrix has entries that are not stored (zeros): FastInformedBound takes its start from the stored values
+    // only. 20: rewards -1 / 0 (the true maximum 0 is an implicit zero); 21: all rewards zero (nothing stored).
+    case 20: case 21: {
+        Rng r(0xC03C03ull + (uint64_t)k);
+        I.t = randomPomdp(r, 3, 2, 2);
+        for (size_t s = 0; s < 3; ++s) for (size_t a = 0; a < 2; ++a) I.t.R(s, a) = (k == 20 && (s + a) % 3 == 0) ? -1.0 : 0.0;
+        I.b0 = vec({0.5, 0.25, 0.25}); I.shape = "fixed_sparse_zero_rewards"; I.kind = 1;
+        break;
+    }
     default: {
         // small hand-made 2-state POMDPs with corner / face initial beliefs and negative rewards
         Rng r(0xC03C03ull + (uint64_t)k);
@@ -87,8 +187,20 @@ static Inst fixedInst(long k) {
 }
 
 static Inst makeInst(long pn, const std::string & tier) {
-    if (pn < NFIXED) return fixedInst(pn);
-    return genInst(g_seed, pn, tier == "thorough");
+    Inst I;
+    if (pn < NFIXED) I = fixedInst(pn);
+    else {
+        I = genInst(g_seed, pn, tier == "thorough");
+        // structure added on top of the seeded tables from an independent stream (the instances of `genInst` keep their tables)
+        Rng r(mix64(g_seed * 0xD1B54A32D192ED03ull + (uint64_t)pn) ^ 0xC03B10Cull);
+        if (r.coin(1, 4)) {
+            makeImpossible(I, r, r.coin());
+            if (r.coin()) { const double sg = r.coin(1, 3) ? -1.0 : 1.0; for (size_t s = 0; s < I.t.S; ++s) for (size_t a = 0; a < I.t.A; ++a) I.t.R(s, a) = sg * (std::fabs(I.t.R(s, a)) + 0.25); }
+        }
+        I.kind = (int)r.below(4); if (I.kind == 3) I.kind = 0;     // dense 1/2, sparse 1/4, element-wise 1/4
+    }
+    I.impossible = countImpossible(I.t);
+    return I;
 }
 
 static Inst genInst(uint64_t seed, long pn, bool th) {
@@ -121,7 +233,7 @@ static void putUbV(Line & l, const P::UpperBoundValueFunction & u) {
 
 static const double TOLS[] = {0.0, 0.0, 0.001, 0.01, 0.5};
 
-static void runBlind(Rng & rng, const Inst & I, const PModel & m) {
+template <class PM> static void runBlind(Rng & rng, const Inst & I, const PM & m) {
     for (int rep = 0; rep < 3; ++rep) {
         unsigned h = rep == 0 ? (unsigned)rng.range(1, 8) : rep == 1 ? 60u : 100000u;
         double tol = rep == 0 ? 0.0 : rep == 1 ? TOLS[rng.below(5)] : 0.001;
@@ -134,7 +246,7 @@ static void runBlind(Rng & rng, const Inst & I, const PModel & m) {
     }
 }
 
-static void runUb(Rng & rng, const Inst & I, const PModel & m) {
+template <class PM> static void runUb(Rng & rng, const Inst & I, const PM & m) {
     for (int rep = 0; rep < 3; ++rep) {
         unsigned h = rep == 0 ? (unsigned)rng.range(1, 8) : rep == 1 ? 60u : 100000u;
         double tol = rep == 0 ? 0.0 : rep == 1 ? TOLS[rng.below(5)] : 0.001;
@@ -163,7 +275,7 @@ static void putVF(Line & l, const P::ValueFunction & vf) {
     for (const auto & vl : vf) putVList(l, vl, true);
 }
 
-static void runPbvi(Rng & rng, const Inst & I, const PModel & m) {
+template <class PM> static void runPbvi(Rng & rng, const Inst & I, const PM & m) {
     for (int rep = 0; rep < 2; ++rep) {
         auto bl = beliefSet(rng, I);
         unsigned h = rep == 0 ? (unsigned)rng.range(1, 5) : 40u;
@@ -176,7 +288,7 @@ static void runPbvi(Rng & rng, const Inst & I, const PModel & m) {
     }
 }
 
-static void runPerseus(Rng & rng, const Inst & I, const PModel & m) {
+template <class PM> static void runPerseus(Rng & rng, const Inst & I, const PM & m) {
     for (int rep = 0; rep < 2; ++rep) {
         unsigned h = rep == 0 ? (unsigned)rng.range(1, 5) : 40u;
         double tol = rep == 0 ? 0.0 : 0.01;
@@ -215,7 +327,7 @@ struct Obs {
     const Inst * I; const char * algo; unsigned budget; P::VList prev; bool havePrev = false; unsigned n = 0; std::string params;
     M::QFunction prevQ; P::UpperBoundValueFunction prevUbV; bool havePrevUb = false;
     // the state the solver starts from, recomputed with the solver's own helper calls: it is the "previous snapshot" of the first iteration
-    void seed(const PModel & m, double tolHelpers) {
+    template <class PM> void seed(const PM & m, double tolHelpers) {
         P::BlindStrategies bs(1000000, tolHelpers);
         prev = std::get<1>(bs(m, true)); havePrev = true;
         P::FastInformedBound fib(1000000, tolHelpers);
@@ -231,7 +343,7 @@ struct Obs {
     }
 };
 
-static void runSarsop(Rng & rng, const Inst & I, const PModel & m, const std::string & tier) {
+template <class PM> static void runSarsop(Rng & rng, const Inst & I, const PM & m, const std::string & tier) {
     static const double tols[] = {0.1, 0.01, 1.0, 0.001}; static const double deltas[] = {0.1, 0.01, 0.5};
     double tol = tols[rng.below(4)], delta = deltas[rng.below(3)];
     Obs ob{&I, "SARSOP", tier == "thorough" ? 80u : 30u};
@@ -245,7 +357,7 @@ static void runSarsop(Rng & rng, const Inst & I, const PModel & m, const std::st
     std::printf("#stat sarsop_iterations %u\n#stat sarsop_%s 1\n", ob.n, ob.n >= ob.budget ? "budget_stop" : "converged");
 }
 
-static void runGapMin(Rng & rng, const Inst & I, const PModel & m, const std::string & tier) {
+template <class PM> static void runGapMin(Rng & rng, const Inst & I, const PM & m, const std::string & tier) {
     static const double tols[] = {0.1, 0.01, 0.005};
     double tol = tols[rng.below(3)];
     // precisionDigits drives both how long GapMin keeps refining (it stops once the gap is below 10^(magnitude - digits)) and the
@@ -268,14 +380,57 @@ static void runGapMin(Rng & rng, const Inst & I, const PModel & m, const std::st
     std::printf("#stat gapmin_iterations %u\n#stat gapmin_%s 1\n", ob.n, ob.n >= ob.budget ? "budget_stop" : "converged");
 }
 
+// Helpers one level below the anchored code, each held to its own contract on the implementation's outputs:
+//   updateBeliefUnnormalized / updateBeliefPartial + updateBeliefPartialUnnormalized / updateBelief (SARSOP, GapMin, bestPromisingAction),
+//   beliefExpectedReward, findBestAtPoint and extractDominated (GapMin's start set, `lb`), checkEqualProbability (GapMin's duplicate test).
+template <class PM> static void runHelpers(Rng & rng, const Inst & I, const PM & m, const P::VList & blind) {
+    for (int k = 0; k < 3; ++k) {
+        P::Belief b = k == 0 ? I.b0 : dyadicBelief(rng, I.t.S);
+        if (k == 2) b *= 0.375;                                          // unnormalised input (GapMin interpolates unnormalised successors)
+        const size_t a = rng.below(I.t.A), o = rng.below(I.t.O);
+        std::printf("#in updateBelief a=%zu o=%zu\n", a, o); std::fflush(stdout);
+        P::Belief un = P::updateBeliefUnnormalized(m, b, a, o);
+        P::Belief part = P::updateBeliefPartial(m, b, a);
+        P::Belief pun = P::updateBeliefPartialUnnormalized(m, part, a, o);
+        const double mass = un.sum();
+        P::Belief nb = P::Belief::Zero(I.t.S);
+        if (mass > 0.0) nb = P::updateBelief(m, b, a, o);
+        const double er = P::beliefExpectedReward(m, b, a);
+        Line l; putHead(l, "bel", I); putVector(l, b); l << a << o << "|"; putVector(l, un); putVector(l, part); putVector(l, pun); l << (mass > 0.0); putVector(l, nb); l << er; l.emit();
+    }
+    // a vector list with dominated members, duplicates and vectors that differ in one late coordinate only
+    P::VList vl = blind;
+    const size_t n0 = vl.size();
+    for (size_t i = 0; i < n0; ++i) {
+        auto lower = vl[i].values; for (long s = 0; s < lower.size(); ++s) lower[s] -= (double)rng.range(0, 2) * 0.5;
+        vl.emplace_back(lower, vl[i].action, P::VObs());
+        if (rng.coin()) vl.emplace_back(vl[i].values, vl[i].action, P::VObs());
+        auto bump = vl[i].values; bump[bump.size() - 1] += 0.25;
+        if (rng.coin()) vl.emplace_back(bump, vl[i].action, P::VObs());
+    }
+    for (size_t i = vl.size(); i > 1; --i) std::swap(vl[i - 1], vl[rng.below(i)]);
+    P::Belief b = rng.coin() ? I.b0 : dyadicBelief(rng, I.t.S);
+    std::printf("#in findBestAtPoint/extractDominated n=%zu\n", vl.size()); std::fflush(stdout);
+    double best = 0.0;
+    auto it = AIToolbox::findBestAtPoint(b, std::begin(vl), std::end(vl), &best, P::unwrap);
+    const size_t bestIdx = (size_t)std::distance(std::begin(vl), it);
+    P::VList kept = vl;
+    kept.erase(AIToolbox::extractDominated(std::begin(kept), std::end(kept), P::unwrap), std::end(kept));
+    P::Belief b2 = b; if (I.t.S > 1) { b2[0] += 5e-7; b2[1] -= 5e-7; }
+    P::Belief b3 = b; b3[I.t.S - 1] += 3e-6;
+    Line l; putHead(l, "dom", I); putVector(l, b); putVList(l, vl, false); l << "|" << best << bestIdx; putVList(l, kept, false);
+    l << AIToolbox::checkEqualProbability(b, b2) << AIToolbox::checkEqualProbability(b, b3) << AIToolbox::checkEqualProbability(b3, b); l.emit();
+}
+
 // the two look-ahead kernels on hand-made sound inputs: blind vectors as lower set, FIB Q + promising-backup points as upper surface
-static void runKernels(Rng & rng, const Inst & I, const PModel & m) {
+template <class PM> static void runKernels(Rng & rng, const Inst & I, const PM & m) {
     P::BlindStrategies bs(200, 0.0);
     auto vl = std::get<1>(bs(m, true));
     P::FastInformedBound fib(200, 0.0);
     M::QFunction ubQ = std::get<1>(fib(m));
     P::UpperBoundValueFunction ubV;
-    const auto & ir = m.getRewardFunction();
+    const AIToolbox::Matrix2D ir = I.t.R;
+    runHelpers(rng, I, m, vl);
     for (int k = 0; k < 4; ++k) {
         P::Belief b = k == 0 ? I.b0 : dyadicBelief(rng, I.t.S);
         std::printf("#in bestConservativeAction\n"); std::fflush(stdout);
@@ -302,19 +457,50 @@ long verif_ncases(const std::string & tier) { return (tier == "thorough" ? 310 :
 void verif_case(Rng & rng, long idx, const std::string & tier) {
     const long pn = idx / NSOLV, solver = idx % NSOLV;
     Inst I = makeInst(pn, tier);
-    PModel m = toDense(I.t);
-    if (solver == 0) std::printf("#stat shape_%s 1\n#stat S%zu 1\n#stat A%zu 1\n#stat O%zu 1\n#stat rewards_%s 1\n", I.shape.c_str(), I.t.S, I.t.A, I.t.O,
-                                 I.t.R.maxCoeff() <= 0 ? "nonpositive" : I.t.R.minCoeff() >= 0 ? "nonnegative" : "mixed");
+    PModel dense = toDense(I.t);
+    if (solver == 0) std::printf("#stat shape_%s 1\n#stat S%zu 1\n#stat A%zu 1\n#stat O%zu 1\n#stat rewards_%s 1\n#stat model_%s 1\n#stat impossible_action_observation_pairs_%s 1\n",
+                                 I.shape.c_str(), I.t.S, I.t.A, I.t.O,
+                                 I.t.R.maxCoeff() <= 0 ? "nonpositive" : I.t.R.minCoeff() >= 0 ? "nonnegative" : "mixed",
+                                 I.kind == 0 ? "dense" : I.kind == 1 ? "sparse" : "elementwise", I.impossible == 0 ? "0" : I.impossible == 1 ? "1" : "2plus");
     const bool extreme = I.t.discount > 0.9999;
-    switch (solver) {
-        case 0: runBlind(rng, I, m); break;
-        case 1: runUb(rng, I, m); break;
-        case 2: if (!extreme) runPbvi(rng, I, m); break;
-        case 3: if (!extreme) runPerseus(rng, I, m); break;
-        case 4: runBudgeted([&]{ runSarsop(rng, I, m, tier); }, tier == "thorough" ? 120 : 40, "sarsop"); break;
-        case 5: runBudgeted([&]{ runGapMin(rng, I, m, tier); }, tier == "thorough" ? 120 : 40, "gapmin"); break;
-        case 6: if (!extreme) runKernels(rng, I, m); break;
+    const auto go = [&](const auto & m) {
+        switch (solver) {
+            case 0: runBlind(rng, I, m); break;
+            case 1: runUb(rng, I, m); break;
+            case 2: if (!extreme) runPbvi(rng, I, m); break;
+            case 3: if (!extreme) runPerseus(rng, I, m); break;
+            case 4: runBudgeted([&]{ runSarsop(rng, I, m, tier); }, tier == "thorough" ? 120 : 40, "sarsop"); break;
+            case 5: runBudgeted([&]{ runGapMin(rng, I, m, tier); }, tier == "thorough" ? 120 : 40, "gapmin"); break;
+            case 6: if (!extreme) runKernels(rng, I, m); break;
+        }
+    };
+    // element-wise model: only for the solvers whose instantiation compiles on the current tree (compile probes; see SPEC)
+    bool elementwise = I.kind == 2 && (solver == 0 || solver == 2 || solver == 3);
+#ifdef AITB_C03_ELEMENTWISE_FIB
+    elementwise |= I.kind == 2 && solver == 1;
+#endif
+#ifdef AITB_C03_ELEMENTWISE_ANYTIME
+    elementwise |= I.kind == 2 && (solver == 4 || solver == 5 || solver == 6);
+#endif
+    if (solver != 0 && I.kind == 2) std::printf("#stat elementwise_model_%s 1\n", elementwise ? "used" : "not_instantiable_dense_used");
+    if (I.kind == 1) { SModel sm(dense); go(sm); }
+    else if (elementwise) {
+        GModel gm(dense);
+        switch (solver) {       // written out: an instantiation that does not compile must not be named
+            case 0: runBlind(rng, I, gm); break;
+            case 2: if (!extreme) runPbvi(rng, I, gm); break;
+            case 3: if (!extreme) runPerseus(rng, I, gm); break;
+#ifdef AITB_C03_ELEMENTWISE_FIB
+            case 1: runUb(rng, I, gm); break;
+#endif
+#ifdef AITB_C03_ELEMENTWISE_ANYTIME
+            case 4: runBudgeted([&]{ runSarsop(rng, I, gm, tier); }, tier == "thorough" ? 120 : 40, "sarsop"); break;
+            case 5: runBudgeted([&]{ runGapMin(rng, I, gm, tier); }, tier == "thorough" ? 120 : 40, "gapmin"); break;
+            case 6: if (!extreme) runKernels(rng, I, gm); break;
+#endif
+        }
     }
+    else go(dense);
 }
 }
 
